@@ -1,0 +1,60 @@
+//go:build verif
+
+// Contracts for the gowp verifier (/verif). Comment-only; compiled only with -tags verif.
+package rueidishook
+
+// ---------------------------------------------------------------------------------------------
+// C43 — every request path of a hooked client goes through the hook exactly once, with the wrapped client and the
+// caller's arguments, and returns the hook's result unchanged.
+// effects() counts calls of Hook methods (each one adds 1); the result of a Hook method is an (uninterpreted)
+// function of the hook, the client it is given and the arguments, so "returns the hook's result" can be stated.
+
+//@ specfn hookDo(h Hook, cl rueidis.Client, cmd rueidis.Completed) rueidis.RedisResult
+//@ specfn hookDoMulti(h Hook, cl rueidis.Client, multi []rueidis.Completed) []rueidis.RedisResult
+//@ specfn hookDoCache(h Hook, cl rueidis.Client, cmd rueidis.Cacheable, ttl time.Duration) rueidis.RedisResult
+//@ specfn hookDoMultiCache(h Hook, cl rueidis.Client, multi []rueidis.CacheableTTL) []rueidis.RedisResult
+//@ specfn hookReceive(h Hook, cl rueidis.Client, subscribe rueidis.Completed) error
+//@ specfn hookDoStream(h Hook, cl rueidis.Client, cmd rueidis.Completed) rueidis.RedisResultStream
+//@ specfn hookDoMultiStream(h Hook, cl rueidis.Client, multi []rueidis.Completed) rueidis.MultiRedisResultStream
+
+//@ func Hook.Do
+//@   ensures effects() == old(effects()) + 1 && resp == hookDo(recv, client, cmd)
+//@ func Hook.DoMulti
+//@   ensures effects() == old(effects()) + 1 && resps == hookDoMulti(recv, client, multi)
+//@ func Hook.DoCache
+//@   ensures effects() == old(effects()) + 1 && resp == hookDoCache(recv, client, cmd, ttl)
+//@ func Hook.DoMultiCache
+//@   ensures effects() == old(effects()) + 1 && resps == hookDoMultiCache(recv, client, multi)
+//@ func Hook.Receive
+//@   ensures effects() == old(effects()) + 1 && err == hookReceive(recv, client, subscribe)
+//@ func Hook.DoStream
+//@   ensures effects() == old(effects()) + 1 && result == hookDoStream(recv, client, cmd)
+//@ func Hook.DoMultiStream
+//@   ensures effects() == old(effects()) + 1 && result == hookDoMultiStream(recv, client, multi)
+
+//@ func hookclient.Do
+//@   ensures [C43 through-the-hook-once] effects() == old(effects()) + 1 && resp == hookDo(c.hook, c.client, cmd)
+//@ func hookclient.DoMulti
+//@   ensures [C43 through-the-hook-once] effects() == old(effects()) + 1 && resp == hookDoMulti(c.hook, c.client, multi)
+//@ func hookclient.DoCache
+//@   ensures [C43 through-the-hook-once] effects() == old(effects()) + 1 && resp == hookDoCache(c.hook, c.client, cmd, ttl)
+//@ func hookclient.DoMultiCache
+//@   ensures [C43 through-the-hook-once] effects() == old(effects()) + 1 && resps == hookDoMultiCache(c.hook, c.client, multi)
+//@ func hookclient.Receive
+//@   ensures [C43 through-the-hook-once] effects() == old(effects()) + 1 && err == hookReceive(c.hook, c.client, subscribe)
+//@ func hookclient.DoStream
+//@   ensures [C43 through-the-hook-once] effects() == old(effects()) + 1 && result == hookDoStream(c.hook, c.client, cmd)
+//@ func hookclient.DoMultiStream
+//@   ensures [C43 through-the-hook-once] effects() == old(effects()) + 1 && result == hookDoMultiStream(c.hook, c.client, multi)
+
+// dedicated clients handed out by a hooked client: same rule, the hook receives the wrapped (extended) client
+//@ func dedicated.Do
+//@   ensures [C43 through-the-hook-once] effects() == old(effects()) + 1 && resp == hookDo(d.hook, asiface(d.client), cmd)
+//@ func dedicated.DoMulti
+//@   ensures [C43 through-the-hook-once] effects() == old(effects()) + 1 && resp == hookDoMulti(d.hook, asiface(d.client), multi)
+//@ func dedicated.Receive
+//@   ensures [C43 through-the-hook-once] effects() == old(effects()) + 1 && err == hookReceive(d.hook, asiface(d.client), subscribe)
+
+// WithHook / Dedicate wrap: the returned client is a hookclient (resp. dedicated) carrying the same hook
+//@ func WithHook
+//@   ensures [C43 wraps] typeis(result, *hookclient)
